@@ -167,6 +167,15 @@ fn eval(ctx: &Ctx, case: &Case) -> Verdict {
     let what = format!("`sfs {}` on shape {:?}", combined.join(" "), case.spec.shape);
     ensure!(run_c.ok(), "{what} failed: {}", run_c.describe());
 
+    // the same invocation reading the spectrum from stdin instead of a path
+    {
+        let mut argv = combined.clone();
+        argv.pop();
+        let path = dir.join("in.sfs");
+        let run_s = cli::sfs(ctx, &argv, Input::File(&path), &dir);
+        ensure!(run_s.code == run_c.code && run_s.stdout == run_c.stdout, "{what}: reading the same spectrum from stdin gives a different result: {} vs {}", run_s.describe(), run_c.describe());
+    }
+
     // (i) chain of single-option invocations in the documented order, losslessly connected
     if steps.len() >= 2 {
         let mut input = "in.sfs".to_string();
